@@ -266,6 +266,9 @@ fn names_of(ops: &[Op]) -> Vec<String> {
 /// Documented pattern forms: "*", "prefix*", "*suffix", an exact name. Anything else (a star in
 /// the middle, several stars, CLIPS-style "?…" variables) is left open by the documentation.
 fn pat_match(p: &str, name: &str) -> Option<bool> {
+    if p == "?ALL" {
+        return Some(true);
+    }
     if p.contains('?') {
         return None;
     }
@@ -1491,7 +1494,9 @@ fn random_only_preambles() -> Vec<Vec<Op>> {
     vec![re_chain, re_main]
 }
 
-const PATTERNS: [&str; 7] = ["*", "a-*", "*-x", "b-*", "a-x", "a-y", "b-x"];
+/// (the empty pattern is an exact name that no rule has: it matches nothing; `?ALL` is the
+/// documented alias of `*`)
+const PATTERNS: [&str; 9] = ["*", "a-*", "*-x", "b-*", "a-x", "a-y", "b-x", "", "?ALL"];
 
 fn pick_s(rng: &mut Rng, xs: &[&str]) -> String {
     xs[rng.below(xs.len())].to_string()
